@@ -115,6 +115,17 @@ def gen_cases(rng, tier):
         v = sgn(rng.randrange(1 << 64) >> rng.randrange(0, 64), 64)
         n = ref_len(v & 0xffffffffffffffff, 64)
         cases.append(dict(op='ltf8enc', v=v, buf=[0] * rng.randrange(0, n)))
+    # destinations of exactly Len(v), Len(v)+1 and Len(v)-1 bytes for every length class of both codecs
+    # (class edges and random members): the first two must succeed, the last must panic without writing
+    for bits, op in ((32, 'itf8enc'), (64, 'ltf8enc')):
+        lim = [0, 7, 14, 21, 28, 32] if bits == 32 else [0, 7, 14, 21, 28, 35, 42, 49, 56, 64]
+        for k in range(1, len(lim)):
+            lo, hi = (0 if k == 1 else 1 << lim[k - 1]), 1 << lim[k]
+            us = [lo, hi - 1] + [rng.randrange(lo, hi) for _ in range(2 if tier == 'quick' else 40)]
+            for u in us:
+                n = ref_len(u, bits)
+                for ln in (n, n + 1, n - 1):
+                    cases.append(dict(op=op, v=sgn(u, bits), buf=[rng.randrange(256) for _ in range(ln)]))
     # decoding arbitrary byte strings of length 0..9(+) over all first-byte classes
     firsts = [0x00, 0x7f, 0x80, 0xbf, 0xc0, 0xdf, 0xe0, 0xef, 0xf0, 0xf7, 0xf8, 0xfb, 0xfc, 0xfd, 0xfe, 0xff]
     reps = 2 if tier == 'quick' else 40
@@ -311,7 +322,9 @@ def oracle(c, o):
         n = len(ref)
         if 'panic' in o:
             if len(c['buf']) >= n:
-                return ('%s:n%d:panic' % (op, n), 'Encode panicked with a large enough buffer: ' + o['panic'])
+                return ('%s:n%d:panic' % (op, n), 'Encode(%d) panicked with a destination of %d bytes, Len is %d: %s' % (c['v'], len(c['buf']), n, o['panic']))
+            if 'buf' in o and o['buf'] != c['buf']:
+                return ('%s:n%d:partialwrite' % (op, n), 'Encode wrote into a destination that is too short before panicking: %s -> %s' % (c['buf'], o['buf']))
             return None
         if len(c['buf']) < n:
             return ('%s:n%d:shortbuf' % (op, n), 'Encode returned although the buffer is shorter than the encoding')
@@ -379,7 +392,7 @@ def cases_of_bad(bad, rng):
     v = bad['v']
     enc = ref_itf8_enc(v) if op == 'itf8enc' else ref_ltf8_enc(v)
     dec = 'itf8dec' if op == 'itf8enc' else 'ltf8dec'
-    out = [dict(op=op, v=v, buf=[0xa5] * (len(enc) + 3)), dict(op=dec, b=enc), dict(op=dec, b=enc + [rng.randrange(256)])]
+    out = [dict(op=op, v=v, buf=[0xa5] * (len(enc) + k)) for k in (3, 0, 1, 2)] + [dict(op=dec, b=enc), dict(op=dec, b=enc + [rng.randrange(256)])]
     if op == 'itf8enc' and len(enc) == 5:
         out.append(dict(op=dec, b=enc[:4] + [enc[4] | 0xf0]))
     return out
@@ -490,7 +503,7 @@ def run(res, rng, tier):
             res.failures.append(dict(sig='stream:chunking', what='the result depends on how the source delivers its bytes (mode %d vs %d)' % (c['mode'], ac['mode']), case=ac, observed=ao, expected=o))
     res.extra['phase_seconds'] = dict(harness=round(t1 - t0, 1), coq_cases=round(t2 - t1, 1), rest=round(time.time() - t2, 1))
     res.rule = ('codec calls stratified by encoded length (all 5 ITF-8 / 9 LTF-8 classes, both edges of each class, powers of two +-1, random fill), '
-                'random destination buffers incl. too short ones, byte strings of length 0..10 over 16 first-byte classes; '
+                'random destination buffers incl. too short ones, destinations of exactly Len, Len+1 and Len-1 bytes for every length class (edges and random members), byte strings of length 0..10 over 16 first-byte classes; '
                 'scripts of 1..7 errorReader calls (itf8, ltf8, itf8slice) over concatenated canonical and over-long encodings, cut at arbitrary '
                 'offsets or followed by junk, four ways of chunking the source, EOF or a fault at the end; '
                 'a case is distinct by (op, value, buffer length), (op, bytes) or (bytes, tail, script); all are non-trivial (every one runs codec arithmetic). '
